@@ -48,7 +48,7 @@ CHECKS = {
     "C15": dict(text="real resample_orientations with the RNG replaced by arbitrary variates in [0,1): all paths (volume orders x search positions) for M <= 3 grains: every output pair is one input grain's pair, zero-volume grains never drawn, the variate lies in the drawn grain's cumulative-volume interval (probability = volume), shapes, seed plumbing; shape validation with symbolic extents for 3-5-d / 1-3-d inputs.",
                 note="exact reals; M <= 3 (4 thorough), n_samples <= 2; convergence of sample statistics outside the claim",
                 tech="symbolic execution of real source + SMT (z3), nondeterministic RNG stub, symbolic integer shapes"),
-    "C16": dict(text="CrossHair contracts over the real save_scsv / write_scsv_header / _validate_scsv_schema / _parse_scsv_cell (I/O stand-ins): cell round trips for string (len<=3), integer, float (incl. NaN, +-inf, -0.0), boolean cells with symbolic missing markers, refusal of unequal columns; rows (symbolic cells and marker, all-fill row) through the real read_scsv loop for comma / tab / semicolon delimiters; z3 string theory: one witness per YAML implicit resolver of the installed PyYAML, replayed through real files.",
+    "C16": dict(text="CrossHair contracts over the real save_scsv / write_scsv_header / _validate_scsv_schema / _parse_scsv_cell (I/O stand-ins): cell round trips for string (len<=3, symbolic fill len<=3 and a table of special fills such as 'NaN'), integer (incl. integers beyond 2^53), float (incl. NaN, +-inf, -0.0), boolean cells with symbolic missing markers, refusal of unequal columns; rows (symbolic cells and marker, all-fill row) through the real read_scsv loop for comma / tab / semicolon delimiters and for one-column tables; z3 string theory: one witness per YAML implicit resolver of the installed PyYAML, replayed through real files.",
                 note="bounded string lengths and value selectors as stated in each contract's pre-conditions; schema-validation contracts may stay 'Not confirmed' within the budget (reported as optional-inconclusive); csv field fidelity and float repr round trip assumed",
                 tech="CrossHair symbolic execution (z3) of the real Python source; z3 regular-expression / string queries; replay through real files",
                 engine="crosshair"),
